@@ -1,10 +1,12 @@
 //! `sut`: the system-under-test driver. One subcommand per engine.
 
+mod analyze;
 mod astwalk;
 mod c05;
 mod c06;
 mod c10;
 mod c11;
+mod c13;
 mod enc;
 mod natives;
 mod runner;
@@ -150,21 +152,67 @@ fn cmd_gcsweep() {
     }
 }
 
+fn prealloc_noise() {
+    // VERIF_PREALLOC=<bytes>: allocate and leak mixed-size live blocks before anything else (address-layout noise)
+    if let Ok(n) = std::env::var("VERIF_PREALLOC") {
+        let mut left: usize = n.parse().unwrap_or(0);
+        let mut sz = 24usize;
+        while left > 0 {
+            let v: Vec<u8> = vec![0xA5; sz];
+            left = left.saturating_sub(sz);
+            std::mem::forget(v);
+            sz = sz * 5 / 3 % 70000 + 16;
+        }
+    }
+}
+
 fn main() {
+    prealloc_noise();
+    // VERIF_THREAD=spawn: run the whole command on a spawned thread; spawn2: after another evaluation on that thread
+    if let Ok(mode) = std::env::var("VERIF_THREAD") {
+        if std::env::var("VERIF_THREAD_INNER").is_err() && (mode == "spawn" || mode == "spawn2") {
+            unsafe { std::env::set_var("VERIF_THREAD_INNER", "1") };
+            let h = std::thread::Builder::new().stack_size(8 << 20).spawn(move || {
+                if mode == "spawn2" {
+                    let _ = runner::run_spec(&serde_json::json!({"id": 0, "steps": ["x = [1, 2]\ndef f(): return {'a': x}\nf()\n"]}));
+                }
+                real_main()
+            }).unwrap();
+            h.join().unwrap();
+            return;
+        }
+    }
+    real_main()
+}
+
+fn real_main() {
     let args: Vec<String> = std::env::args().collect();
     let cmd = args.get(1).map(|s| s.as_str()).unwrap_or("");
     match cmd {
         "run" => cmd_run(),
+        "canary" => {
+            // what varies between configurations (C14): std HashMap order, an allocation address, the thread
+            let m: std::collections::HashMap<u32, u32> = (0..8).map(|i| (i, i)).collect();
+            let order: Vec<u32> = m.keys().copied().collect();
+            let b = Box::new(17u64);
+            println!(
+                "{}",
+                serde_json::json!({"hashmap_order": order, "addr": format!("{:p}", &*b),
+                                   "thread": format!("{:?}", std::thread::current().name())})
+            );
+        }
         "globals" => {
             let g = runner::globals_of("ext");
             let names: Vec<String> = g.names().map(|n| n.as_str().to_owned()).collect();
             println!("{}", serde_json::to_string(&names).unwrap());
         }
         "gcsweep" => cmd_gcsweep(),
+        "analyze" => analyze::cmd(),
         "c05" => c05::cmd(),
         "parse" => c06::cmd(),
         "c10api" => c10::cmd(),
         "c11" => c11::cmd(),
+        "c13" => c13::cmd(),
         _ => {
             eprintln!("usage: sut <run|...>");
             std::process::exit(2);
